@@ -162,6 +162,23 @@ def run_random(ctx, monitor):
             if rng.random() < .3:
                 for t in b["terms"][:1]:
                     t[1] = [x + 1 if isinstance(x, int) else x for x in t[1]]
+        elif kind == "float" and rng.random() < .4:
+            # an "ulp twin": the same polynomial with one coefficient moved by 1-3 units in the last place; `==` holds
+            # only for identical polynomials, and all six operators answer for the same order (seeded change C07-13: only
+            # the `==` operator became tolerant)
+            import copy
+            from ..core import coef_from_json
+            b = copy.deepcopy(a)
+            b.pop("as", None)
+            spots = [(t, j) for t in b["terms"] for j, x in enumerate(t[1]) if coef_from_json(x) != 0]
+            if spots:
+                t, j = spots[int(rng.integers(len(spots)))]
+                x = float(coef_from_json(t[1][j]))
+                for _ in range(int(rng.integers(1, 4))):
+                    x = float(numpy.nextafter(x, numpy.inf if rng.random() < .5 else -numpy.inf))
+                t[1][j] = coef_json(Fraction(x))
+                if rng.random() < .5:
+                    a, b = b, a
         opts = {"sort_graded": bool(rng.integers(2)), "sort_reverse": bool(rng.integers(2))}
         what = gen.choice(rng, list(OPS) + ["max", "min"])
         cases.append({"id": i, "kind": "pair", "what": what, "opts": opts, "a": a, "b": b})
